@@ -7845,15 +7845,12 @@ TraverseSchema::attWildCardUnion(SchemaAttDef* const resultWildCard,
         // 5. not and namespace
         else {
 
-            // 5.3 result is not expressible
-            if (!nameURIList) {
-                resultWildCard->setType(XMLAttDef::AttTypes_Unknown);
-                attNameR->setURI(fEmptyNamespaceURI);
-            }
-            else {
-                bool containsAbsent =
+            {
+                // an empty set (no namespace list) contains neither absent
+                // nor the negated namespace: case 5.4
+                bool containsAbsent = nameURIList &&
                     nameURIList->containsElement(fEmptyNamespaceURI);
-                bool containsNamespace =
+                bool containsNamespace = nameURIList &&
                     nameURIList->containsElement(compareURI);
 
                 // 5.1 result is any
